@@ -385,6 +385,16 @@ func (db *RedisPermanent) mergeTempDatabaseFromLeveldb(ctx context.Context, temp
 		temp.policy,
 	)
 
+	// NOTE purge old items from stcache; the temp database may not have all
+	// of it's states in it's cache
+	if err := temp.iterStateKeys(func(stateKey string) (bool, error) {
+		db.basePermanent.removeStateFromCache(stateKey)
+
+		return true, nil
+	}); err != nil {
+		return e.Wrap(err)
+	}
+
 	db.basePermanent.mergeTempCaches(temp.stcache, temp.instateoperationcache)
 
 	db.Log().Info().Interface("blockmap", temp.mp).Msg("new block merged")
